@@ -237,7 +237,7 @@ func (s *Sym) eval(v ssa.Value) *Term {
 			}
 			return &Term{Op: "zero", Name: v.Type().String()}
 		}
-		return T("field", fname, x)
+		return mkField(fname, x)
 	case *ssa.FieldAddr:
 		x := s.Of(v.X)
 		return T("fieldaddr", fieldName(deref(v.X.Type()), v.Field), x)
@@ -802,7 +802,7 @@ func (s *Sym) loadField(fa *ssa.FieldAddr, at ssa.Instruction) *Term {
 				return s.Of(d.(*ssa.Store).Val)
 			}
 			// ambiguous: a store may or may not have happened
-			return T("field", fname+"'", s.pointeeAt(fa.X, at))
+			return mkField(fname+"'", s.pointeeAt(fa.X, at))
 		}
 	}
 	bt := s.pointeeAt(fa.X, at)
@@ -812,7 +812,7 @@ func (s *Sym) loadField(fa *ssa.FieldAddr, at ssa.Instruction) *Term {
 		}
 		return &Term{Op: "zero", Name: deref(fa.Type()).String()}
 	}
-	return T("field", fname, bt)
+	return mkField(fname, bt)
 }
 
 // pointeeAt: the term of the object that pointer value v designates, as seen
@@ -1627,4 +1627,13 @@ func mutatorShape(ci ssa.CallInstruction, recv ssa.Value) bool {
 		return false
 	}
 	return true
+}
+
+// mkField: field selection, normalising p.f through an address term:
+// (&x.g).f == x.g.f
+func mkField(name string, base *Term) *Term {
+	if base.Op == "fieldaddr" && len(base.Args) == 1 {
+		base = mkField(base.Name, base.Args[0])
+	}
+	return T("field", name, base)
 }
